@@ -665,10 +665,11 @@ def percent_format(E, e):
 def str_concat(E, a, b):
     if a.py is not None and b.py is not None and isinstance(a.py, str) and isinstance(b.py, str):
         return vstr(a.py + b.py)
-    if a.ty != "str" or b.ty != "str":
+    if not ({a.ty, b.ty} <= {"str", "any"}):
         raise OutOfSubset("str + non-str")
     f = z3.Function("str_concat", I, I, I)
-    r = V("str", f(a.z, b.z))
+    # an untyped operand is taken to be a string (a non-string would raise TypeError in Python: not modelled, listed under the contract's assumptions)
+    r = V("str" if a.ty == "str" and b.ty == "str" else "any", f(a.z, b.z))
     if not E.st.bound:
         E.st.pc.append(r.z >= 1)
     return r
@@ -812,7 +813,7 @@ def with_stmt(E, n):
         if ext is None and isinstance(item.context_expr, ast.Call) and isinstance(item.context_expr.func, ast.Attribute):
             ext = E.c.externals.get("*." + item.context_expr.func.attr)  # context manager of an untyped object, declared by method name
         if ext is not None and ext.get("with") == "transparent":
-            if ext.get("event") or ext.get("outcomes"):
+            if (ext.get("event") or ext.get("outcomes")) and not ext.get("with_plain"):
                 val = external_call(E, d, ext, item.context_expr)  # entering the context is an observable external call (event / outcomes)
             else:
                 val = E.symbolic("ctx", parse_type(ext.get("returns", "any")))
@@ -1597,10 +1598,10 @@ def external_call(E, name, ext, e, recv=None, args=None, kwargs=None):
     try:
         for r in oc.get("ensures", []):
             st.pc.append(E.spec(r, extra=env2))
-        if ext.get("ghost_update"):
-            gu = ext["ghost_update"]
-            for gname, gexpr in ([gu] if isinstance(gu[0], str) else gu):  # one (name, expr) pair or a list of pairs (evaluated in order)
-                st.vars[gname] = E.spec_value_env(gexpr, env2)
+        for gu in (ext.get("ghost_update"), oc.get("ghost_update")):  # external-wide and outcome-specific ghost updates
+            if gu:
+                for gname, gexpr in ([gu] if isinstance(gu[0], str) else gu):  # one (name, expr) pair or a list of pairs (evaluated in order)
+                    st.vars[gname] = E.spec_value_env(gexpr, env2)
     finally:
         if saved_entry_ext is not None:
             st.labels["entry"] = saved_entry_ext
@@ -1643,6 +1644,12 @@ def py_builtin(E, name, e):
         v = E.ev(e.args[0])
         classes = e.args[1].elts if isinstance(e.args[1], ast.Tuple) else [e.args[1]]
         return vbool(z3.Or(*[isinstance_z(E, v, dotted(c)) for c in classes]))
+    if name == "type" and len(e.args) == 1:
+        v = E.ev(e.args[0])
+        if isinstance(v.ty, tuple) and v.ty[0] == "obj" and "|" not in v.ty[1]:
+            # the EXACT class of an object whose static class is exact (exception objects of external outcomes are created per listed class)
+            return V("fn", None, items=("class", v.ty[1], None, E.cur_mod, None), py=v.ty[1])
+        raise OutOfSubset("type() of a value whose exact class is not known")
     if name == "super":
         raise OutOfSubset("bare super()")
     args, kwargs = eval_args(E, e)
@@ -1825,8 +1832,8 @@ def isinstance_z(E, v, cname):
 
 def subclasses(E, cname):
     out = [cname]
-    for m in E.repo.mods.values():
-        for c in m.classes:
+    for m in list(E.repo.mods.values()):
+        for c in list(m.classes):
             if c != cname and cname in mro(E, c):
                 out.append(c)
     return out
